@@ -501,6 +501,25 @@ def rows_without_hit(prog, rep):
                 n += 1
                 if sm.ret == ("agg", "core::option::Option::None", ()) and not any(is_continues(x) for fct in sm.facts for y in fct[1:] if isinstance(y, tuple) for x in walk(y)):
                     bad.append("after taking a row the enumeration ends when %s" % "; ".join(show_fact(x) for x in sm.facts if x not in took))
+                outer = True
+                if sm.ret is None and sm.trail:
+                    # which loop does this partial path close?  the row loop iff its head lies at or before the block
+                    # that pulls the row (an inner `for x in columns` closes behind it: next column, not next row)
+                    blocks_ = nx.body["blocks"]
+                    tr_ = list(sm.trail)
+                    t_last = blocks_[tr_[-1]]["t"] or {}
+                    succ_ = [t_last.get("t")] if t_last.get("k") in ("goto", "call", "drop", "assert") else [b_ for _, b_ in t_last.get("targets", [])] + [t_last.get("otherwise")]
+                    heads_ = [tr_.index(b_) for b_ in succ_ if b_ in tr_]
+                    pulls_ = [i_ for i_, b_ in enumerate(tr_) if (blocks_[b_]["t"] or {}).get("k") == "call" and (blocks_[b_]["t"]["f"].get("name") == "next")]
+                    if heads_ and pulls_ and min(heads_) > pulls_[0]:
+                        outer = False
+                if sm.ret is None and outer:
+                    # the row is given up without a scanline (next iteration): only an exhausted column search justifies
+                    # that — a shortcut test ("the centre column is outside") is a second membership predicate
+                    searched = any(fct[0] == "variant" and fct[2] == ("None",) and (is_continues(fct[1]) or (fct[1][0] == "call" and fct[1][1].split("::")[-1] in ("next", "next_back", "find", "rfind", "position")
+                                                                                                              and "columns" in _field_names(prog, SL, fct[1]))) for fct in sm.facts)
+                    if not searched:
+                        bad.append("a row is skipped without an exhausted column search when %s" % "; ".join(show_fact(x)[:80] for x in sm.facts if x not in took)[:300])
         except Unsupported as e:
             bad.append("cannot summarise: %s" % e)
         rep.check(not bad and n >= 1, "R05.4", shape + ":empty-row", "a row without an accepted column must not end points(): %s" % "; ".join(sorted(set(bad))[:2]), at=nx.span, fn=nx.path)
